@@ -336,6 +336,12 @@ func xbDerivedFrom(v ssa.Value, src map[ssa.Value]bool, depth int) bool {
 	case *ssa.UnOp:
 		if x.Op == token.MUL {
 			if a, ok := x.X.(*ssa.Alloc); ok {
+				// a variable captured by a closure may be rewritten there: its value is not known here
+				for _, r := range *a.Referrers() {
+					if _, isMC := r.(*ssa.MakeClosure); isMC {
+						return false
+					}
+				}
 				sts := storesTo(a)
 				if len(sts) == 0 {
 					return false
@@ -685,9 +691,7 @@ func XBCheckSeeker(c *Ctx, ob string, fn *ssa.Function) string {
 		"Seek changes state without rejecting a negative target position ("+detail+"): io.Seeker requires an error for a negative position")
 	// forwarded pairs of a computing seeker
 	for _, call := range fwd {
-		if isSelf(call) {
-			continue
-		}
+		// (a seek forwarded to the method itself obeys the same rule: a computed target goes with io.SeekStart)
 		args := Args(call)
 		same := len(args) == 2 && offAl[args[0]] && whAl[args[1]]
 		k, isK := int64(-1), false
@@ -871,7 +875,20 @@ func XBDerivedFromOffset(fn *ssa.Function, v ssa.Value) bool {
 	if !XBIsSeek(fn) || v == nil {
 		return false
 	}
-	return xbDerivedFrom(v, Aliases(ssa.Value(fn.Params[1])), 0)
+	src := Aliases(ssa.Value(fn.Params[1]))
+	// a copy of the offset kept in a variable that a closure captures may be rewritten there: not the offset any more
+	for a := range src {
+		if u, ok := a.(*ssa.UnOp); ok && u.Op == token.MUL {
+			if cell, ok := u.X.(*ssa.Alloc); ok {
+				for _, r := range *cell.Referrers() {
+					if _, isMC := r.(*ssa.MakeClosure); isMC {
+						delete(src, a)
+					}
+				}
+			}
+		}
+	}
+	return xbDerivedFrom(v, src, 0)
 }
 
 // xbIsSizeField: f is the field that a method named Size of base's type returns (directly or converted).
